@@ -197,6 +197,43 @@ Section Run.
     forallb (fun l => feqb (eval_lc (mkAsg aL aR aO v) l) f0) cons
     && forallb (fun t => feqb (fmul (fst (fst t)) (snd (fst t))) (snd t)) (combine (combine aL aR) aO).
 
+  (* an instance as data (the section's case only fixes field, basis size): the model prover's proof on d's
+     program with d's recorded draws/challenges, d's mutations, and the verifier's first-phase state *)
+  Definition inst_of (d : r1cs_case) : option (vstate K MO * proof_t) :=
+    let RO_p := oracle (rc_chal_p d) in
+    let prog_p := denote_c (map (@cop_map Zc K cv) (rc_prog d)) in
+    let '(s1, ev1) := p_run B0 Bb0 prog_p (p_new (init_tr (rc_label d))) in
+    let '(_, e1p) := enc_events ev1 in
+    let s1g := fold_left (fun s g => let '(i, l, r, o) := g in
+      mkP (p_tr s) (p_cons s) (set_nth i (cv l) (p_aL s)) (set_nth i (cv r) (p_aR s)) (set_nth i (cv o) (p_aO s))
+          (p_v s) (p_vb s) (p_def s) (p_pend s)) (rc_gates d) s1 in
+    match prove RO_p B0 Bb0 (gensG (rc_cap_p d)) (gensH (rc_cap_p d)) (fun i => cv (nth i (rc_draws d) 0%Z)) s1g with
+    | Err _ => None
+    | Ok po =>
+      let pf := fold_left apply_mut (rc_muts d) (po_proof po) in
+      let Vs (i : nat) : MO :=
+        match nth i (rc_vcommit d) None with Some co => vec co | None => nth i e1p m0 end in
+      let prog_v := denote_cv (map (@cop_map Zc K cv) (rc_vprog d)) in
+      let '(v1, _) := v_run Vs prog_v (v_new (init_tr (rc_vlabel d))) in
+      Some (v1, pf)
+    end.
+
+  (* oracle for several transcripts at once: the recorded list is selected by the transcript's initial label *)
+  Definition label_of (tr : transcript K MO) : list Z :=
+    match tr with App _ (PBytes b) :: _ => b | _ => [] end.
+  Definition zlist_eqb (a b : list Z) : bool := (Nat.eqb (length a) (length b)) && forallb (fun t => Z.eqb (fst t) (snd t)) (combine a b).
+  Definition oracle_multi (table : list (list Z * list Z)) (tr : transcript K MO) : K :=
+    let rec := match find (fun e => zlist_eqb (fst e) (label_of tr)) table with Some e => snd e | None => [] end in
+    cv (nth (count_chal tr - 1) rec 0%Z).
+
+  (* K10: batch_verify on instances given as data, weights as drawn by the implementation *)
+  Definition run_batch (ds : list r1cs_case) (alphas : list Z) (table : list (list Z * list Z)) (cap : nat) : list (list Z) :=
+    let insts := flat_map (fun d => match inst_of d with Some i => [i] | None => [] end) ds in
+    let RO := oracle_multi table in
+    let verdict := batch_verify RO B0 Bb0 (gensG cap) (gensH cap) (map cv alphas) insts in
+    let singles := map (fun i => code_of (verify RO B0 Bb0 (gensG cap) (gensH cap) (fst i) (snd i))) insts in
+    [ [15; code_of verdict]; (20 :: singles); [21; nz (length insts)] ]%Z.
+
   Definition run_r1cs : list (list Z) :=
     let RO_p := oracle (rc_chal_p c) in
     (* the verifier's recorded challenges; if the implementation stopped early, continue with the prover's
